@@ -121,7 +121,7 @@ def falsify_empty_file(chk, P, count):
 def main():
     chk = common.Check('C08')
     import mo_common as P
-    proved = chk.prove('I18n.Props.C08', generated=())
+    proved = P.prove(chk, 'I18n.Props.C08')
     extra = []
     if os.path.exists(common.driver_path()):
         n = 40000 if chk.thorough else 8000
@@ -160,11 +160,16 @@ def main():
              '(None, ISO-8859-1); non-trivial = distinct accepted outcome with at least one entry',
         trusted=['Lean 4.33 kernel', 'axioms: propext, Classical.choice, Quot.sound only',
                  'Spec.Encodes / Spec.expected are my reading of the GNU MO format (gettext manual, gmo.h) and of the charset convention of dcigettext.c',
-                 'hand-written model Mo.parse: tied to lib/moparser.py by the mo-parse stream (and C09 streams) only',
+                 'the tie of Mo.parse to lib/moparser.py: tools/translate/mo2lean.py (one Lean shape per Python construct; rules in its docstring / DESIGN-notes/mo.md) and the kit I18n.Mo.Py of CPython operations '
+                 '(struct.unpack, memoryview indexing/slicing, bytes.split, bytes <, the pinned charset regex, polib.MOEntry keyword shapes); the regenerated parser is PROVED equal to Mo.parse '
+                 '(Props/C08Tie.lean), and translation + kit are exercised against CPython by the *-generated streams',
                  'text decoding is a parameter (CodecDB); the driver instantiates ASCII, ISO-8859-1, UTF-8 and single-byte charmaps (tables read from Python); '
                  'files whose charset needs another codec family are skipped in the stream and counted',
                  'findCharset is the model\'s reading of re.search(b"charset=([^ \\t\\n]+)") and is shared by spec and model'],
-        explanation='Proved for all byte strings and codec databases: parse_of_encodes (every byte string satisfying Encodes parses to the catalog: msgctxt, msgid, plural, forms, file order, '
+        explanation='TIE: Generated/MoParser.lean is regenerated from the current lib/moparser.py on every run and generated_parse_eq_model (Props/C08Tie.lean) proves it equal to Mo.parse for every byte string, '
+                    'so the theorems below hold of the regenerated source (parse_of_encodes_generated, parse_serialize_generated, hidden_flag_generated); a source change breaks that proof or the translation '
+                    '(coverage.tie) and starts the falsifier. '
+                    'Proved for all byte strings and codec databases: parse_of_encodes (every byte string satisfying Encodes parses to the catalog: msgctxt, msgid, plural, forms, file order, '
                     'charset of the header entry, hidden flag), parse_serialize, witness_parse (the 42-byte file that refuted the statement before the fix: commit 8953e21), hidden_flag, '
                     'hidden_suppresses_empty_file, unflagged_empty_is_reported, serialize_encodes (a family of layouts satisfies Encodes). '
                     'The empty-file decision is a 5-line model tied only by the falsifier (full Checker.check on message-less files).')
